@@ -27,7 +27,8 @@ COMPONENTS = {
     'stub': ['regressor (StubRegressor)', 'user objective and predict hook (harness world)', 'joblib', 'time.time', 'uuid1'],
 }
 PROBES_EXPECTED = ['hook_accept', 'hook_decline', 'trained_by_schedule', 'initially_trained', 'train_step_minus_1', 'no_hook',
-                   'passthrough', 'scikit_variant', 'batch_family', 'run_family', 'predictions', 'true_evaluations']
+                   'passthrough', 'scikit_variant', 'batch_family', 'run_family', 'predictions', 'true_evaluations', 'hook_value_numpy',
+                   'hook_value_zero']
 
 TRAIN_STEPS = (3, -1, 1, 2, 5, 10)
 
@@ -108,6 +109,8 @@ class Harness:
         self.decisions = []
         w.predict_hook = self.hook_fn
         self.req = 0
+        self.exotic = False          # exotic hook values only where no Job post-processes the returned value
+        self.last_hook_value = None
         self.real_evaluate = self.sur.evaluate
 
     def hook_fn(self, individual):
@@ -118,10 +121,36 @@ class Harness:
         if accept:
             st['hook_accept'] = st.get('hook_accept', 0) + 1
             self.ctx.probe('hook_accept')
-            return [1000.0 + k] * self.w.m
+            return self.hook_value(k)
         st['hook_decline'] = st.get('hook_decline', 0) + 1
         self.ctx.probe('hook_decline')
         return None
+
+    def hook_value(self, k):
+        """what the user's predict hook returns when it accepts: any value that is not None - a list, a numpy array as
+        regressors return it (possibly an exact zero), or for a single objective a bare scalar zero"""
+        import numpy as np
+        m = self.w.m
+        kind = self.D.dec('fault', ('hookval', k), 4) if self.exotic else 0
+        if kind == 1:
+            self.ctx.probe('hook_value_numpy')
+            return np.array([1000.0 + k] * m)
+        if kind == 2:
+            self.ctx.probe('hook_value_zero')
+            return np.zeros(m)
+        if kind == 3 and m == 1:
+            self.ctx.probe('hook_value_zero')
+            return 0.0
+        return [1000.0 + k] * m
+
+    @staticmethod
+    def as_list(v):
+        import numpy as np
+        if v is None:
+            return None
+        if isinstance(v, (int, float, np.floating)):
+            return [float(v)]
+        return [float(x) for x in v]
 
     def request(self, individual):
         """one evaluation request through the real surrogate, then the oracle"""
@@ -151,7 +180,7 @@ class Harness:
         self.decisions.append('P' if predicted else 'E')
         if predicted:
             ctx.probe('predictions')
-            exp_val = [1000.0 + k] * w.m
+            exp_val = self.as_list(self.hook_value(k))
             m.preds += 1
             if new_calls:
                 ctx.violation('extra_or_missing_call', site, 'request %d was answered by the hook, yet the objective was called %d times'
@@ -172,7 +201,7 @@ class Harness:
                     m.trains.append(m.evals)
                     m.trained = True
                     ctx.probe('trained_by_schedule')
-        if val is None or [float(v) for v in val] != [float(v) for v in exp_val]:
+        if val is None or self.as_list(val) != [float(v) for v in exp_val]:
             ctx.violation('value', site, 'request %d returned %r, expected %r (%s)' % (k, val, exp_val,
                                                                                        'hook value' if predicted else 'true objective'))
             return val
@@ -218,6 +247,7 @@ def run_one(D, opts=None):
     try:
         with W.quiet():
             if fam == 0:
+                h.exotic = True
                 nreq = 1 + D.dec('work', 'nreq', 40)
                 for k in range(nreq):
                     ind = Individual(W.gen_vector(w, D, 'work', ('v', k)))
